@@ -1215,7 +1215,16 @@ def _replay_runload(cex, tmp):
 
 
 def _dispatch(job):
-    return globals()[job[0]](job[1])
+    import symx.core
+    out = globals()[job[0]](job[1])
+    # account the case's solver time (path feasibility and validity
+    # queries) and wall time on its obligations
+    cx = symx.core._CTX[0]
+    sol = cx.stats['solver_s'] if cx is not None else 0.0
+    for o in out:
+        if not o.get('seconds') and o.get('cls') == 'LIN':
+            o['seconds'] = sol/max(1, len(out))
+    return out
 
 
 def main(tier):
